@@ -70,7 +70,7 @@ def has_node(p, kinds):
 
 def run(pid, tier, seed, replay):
     ck = Check(pid, tier, seed, level="proof")
-    n = 2500 if tier == "quick" else 50000
+    n = 1500 if tier == "quick" else 40000
     ck.proof_step(extra_targets=["Model/Pruning.vo"])
     ok, out, dt = vlib.cargo_build("h_pruning", bin="c22")
     ck.log("cargo build: ok=%s (%.0fs)" % (ok, dt))
